@@ -99,9 +99,26 @@ def run(ctx):
     ctx.ob("R-LIN", "C04.3", ad, "strict threshold: the two index sets are the complementary prefix / suffix of arange(size), split at the number of samples below the threshold", oks, "")
     # soft branch: remap through the complement of the new positions
     soft = sa_[0].orelse if len(sa_) == 1 else []
-    okm = len(find_stmt("$$new = $$i + arange(len($$i))", ad.node)) == 1 and len(find_stmt("$$old = get_inverse_indices(self.samples.size, $$new)", ad.node)) == 1 \
-        and len(find_stmt("self.nested_samples_indices = $$old[self.nested_samples_indices]", ad.node)) == 1 and len(find_stmt("self.live_points_indices = $$old[self.live_points_indices]", ad.node)) == 1
-    ctx.ob("R-LIN", "C04.3", ad, "soft threshold: positions after insertion are searchsorted index + rank; old indices are remapped through the complement of the new positions", okm, "")
+    newpos = find_stmt("$$new = $$i + arange(len($$i))", ad.node)
+    # accepted idioms for the positions of the already stored samples after the insertion:
+    #  (a) the complement of the new positions;  (b) old rank + number of new samples inserted before it, which with
+    #      left-sided insertion positions is searchsorted(new logL, old logL, side='right') taken before the insertion
+    idiom_a = find_stmt("$$old = get_inverse_indices(self.samples.size, $$new)", ad.node)
+    idiom_b = []
+    why_b = ""
+    for n_, b in find_stmt("$$old = arange($$n, dtype=int) + $$shift", ad.node) + find_stmt("$$old = arange($$n) + $$shift", ad.node):
+        sh = find_stmt("$$shift = searchsorted(samples['logL'], self.samples['logL'], side='right')", ad.node, {"shift": b["shift"]})
+        sh_left = find_stmt("$$shift = searchsorted(samples['logL'], self.samples['logL'])", ad.node, {"shift": b["shift"]})
+        nn = find_stmt("$$n = self.samples.size", ad.node, {"n": b["n"]})
+        if sh and nn and ins_s and aa.dominates(aa.cfg.id_of(sh[0][0]), aa.cfg.id_of(ins_s[0][0])) and aa.dominates(aa.cfg.id_of(nn[0][0]), aa.cfg.id_of(ins_s[0][0])):
+            idiom_b.append(b)
+        elif sh_left:
+            why_b = "old positions are shifted by searchsorted(new, old) with the default left side, but new samples are inserted *before* equal stored samples: with ties the shift must count new samples <= the stored one (side='right')"
+    remap = idiom_a or idiom_b
+    oldname = remap[0][1]["old"] if idiom_a else (idiom_b[0]["old"] if idiom_b else None)
+    okm = len(newpos) == 1 and len(remap) == 1 and oldname is not None \
+        and len(find_stmt("self.nested_samples_indices = $$old[self.nested_samples_indices]", ad.node, {"old": oldname})) == 1 and len(find_stmt("self.live_points_indices = $$old[self.live_points_indices]", ad.node, {"old": oldname})) == 1
+    ctx.ob("R-LIN", "C04.3", ad, "soft threshold: positions after insertion are searchsorted index + rank; old indices are remapped through the complement of the new positions (or the equivalent right-sided shift)", okm, why_b)
     b = find_stmt("$$new = $$i + arange(len($$i))", ad.node)
     if b and idx:
         ctx.ob("R-LIN", "C04.3", ad, "the remapping uses the same searchsorted positions that were used for the insertion", src(b[0][1]["i"]) == src(idx[0][1]["i"]), "")
@@ -109,7 +126,7 @@ def run(ctx):
     okmerge = len(merged) == 1 and len(find_stmt("self.live_points_indices = insert(self.live_points_indices, $$k, $$new)", ad.node)) == 1 and len(find_stmt("if self.live_points_indices is None:\n    self.live_points_indices = $$new\nelse:\n    $_a\n    $_b\n    $_c", ad.node)) >= 0
     ctx.ob("R-LIN", "C04.3", ad, "new positions are merged into the live index set at searchsorted positions (keeps it increasing), or become the live set when there was none", okmerge and len(find_stmt("self.live_points_indices = $$new", soft[0] if False else ad.node)) >= 1, "")
     chk = [n for n in walk_no_nested(ad.node) if isinstance(n, ast.If) and "len(" in src(n.test) and "self.samples.size - samples.size" in src(n.test) and any(isinstance(x, ast.Raise) for x in n.body)]
-    ctx.ob("R-ORDER", "C04.3", ad, "the complement is checked to have exactly (new size - batch size) entries before it is used", len(chk) == 1, "")
+    ctx.ob("R-ORDER", "C04.3", ad, "the remapped index array is checked to have exactly (new size - batch size) entries before it is used", len(chk) == 1, "")
     gi = ctx.fn("nessai.utils.structures:get_inverse_indices")
     okg = len(find_stmt("$$v = arange(n, dtype=int)", gi.node)) == 1 and len(find_stmt("return $$v[~isin($$v, indices)]", gi.node)) == 1 and any(isinstance(x, ast.Raise) for x in walk_no_nested(gi.node))
     ctx.ob("R-SIB", "C04.3", gi, "get_inverse_indices returns arange(n) without the given indices (ascending), rejecting out-of-range input", okg, "")
